@@ -151,16 +151,17 @@ example : let g := runSched realPolicy cfg1 [⟨true, true, [⟨.replace 1, .ok 
     g.conn 0 = 0 ∧ g.conn 1 = 0 := by decide
 
 /-- **C07 (tie to the source, regenerated facts)**: in package bfe_server the connection counters and
-    `request.Trans.Backend` are touched only where the model does it - clusterInvoke (decrement + clear of the
-    previous backend, SetRequestTransport, clear on a forward Finish verdict, increment) and FinishReq (decrement) -
+    `request.Trans.Backend` are touched only where the model does it - in clusterInvoke (decrement / clear / SetRequestTransport / increment)
+    and FinishReq (decrement), or in helpers that only these two (transitively) call; the extractor follows
+    same-package helpers, methods and closures, so the fact is about behaviour-relevant structure, not syntax -
     so the callback points consulted in ServeHTTP (HandleBeforeLocation, HandleFoundProduct, HandleAfterLocation,
     HandleReadResponse) cannot change a counter whatever they answer; and FinishReq's decrement is a `defer`
     registered before the HandleRequestFinish callback block, so it runs for every verdict (also the early
     return on Finish) and when a filter panics - which is how `step (.fin k)` models it. -/
 theorem C07_sites_as_modelled :
-    BfeVerif.Generated.C07.connSites =
-      [("FinishReq", "dec"), ("clusterInvoke", "clear"), ("clusterInvoke", "clear"), ("clusterInvoke", "dec"),
-       ("clusterInvoke", "inc"), ("clusterInvoke", "set")] ∧
+    BfeVerif.Generated.C07.invokeKinds = ["clear", "dec", "inc", "set"] ∧
+    BfeVerif.Generated.C07.finishKinds = ["dec"] ∧
+    BfeVerif.Generated.C07.counterSitesConfined = true ∧
     BfeVerif.Generated.C07.finishReqDecDeferredFirst = true := by
   decide
 
